@@ -513,4 +513,6 @@ Example ex_small :
   = derivs (Cat (Star (Alt (rchar 97) (rchar 98))) (rstr [97; 98; 98]%N)) [97; 98]%N.
 Proof. vm_compute. reflexivity. Qed.
 
-(* Print Assumptions nullable_spec. Print Assumptions deriv_spec. Print Assumptions matchb_spec. *)
+Print Assumptions nullable_spec.
+Print Assumptions deriv_spec.
+Print Assumptions matchb_spec.
